@@ -5,6 +5,7 @@ here="$(cd "$(dirname "${BASH_SOURCE[0]}")" && pwd)"
 ids=$(python3 -c "import json;print(' '.join(sorted(json.load(open('$here/props/REGISTRY.json'))['claimed'])))")
 rc=0
 for id in $ids; do
+  case " $SKIP " in *" $id "*) continue;; esac
   out=$("$here/check" $id --tier $tier 2>&1); r=$?
   echo "$out" | grep -E "^(OK|VIOLATION|INCONCLUSIVE|KNOWN-FINDING)" | cut -c1-220
   [ $r -ne 0 ] && rc=1
